@@ -99,6 +99,17 @@ def promote(a: PV, b: PV) -> str:
         return a.cont if BITS[a.cont] >= BITS[b.cont] else b.cont
     if "f64" in (a.cont, b.cont):
         return "f64"
+    if "bool" in (a.cont, b.cont):
+        return b.cont if a.cont == "bool" else a.cont
+    if a.cont.startswith("i") and b.cont.startswith("i"):
+        return a.cont if BITS[a.cont] >= BITS[b.cont] else b.cont
+    if a.cont[0] in "ui" and b.cont[0] in "ui" and a.cont in BITS and b.cont in BITS:
+        s_, u_ = (a.cont, b.cont) if a.cont.startswith("i") else (b.cont, a.cont)
+        ub = BITS[u_]
+        for cand in ("i8", "i16", "i32", "i64"):
+            if BITS[cand] >= ub and BITS[cand] >= BITS[s_]:
+                return cand
+        return "f64"
     return "i64-or-f64"
 
 
@@ -239,7 +250,8 @@ class Pointwise(Interp):
                 return
             if idx.value is False:
                 return
-        raise Undecided(f"array store {norm(node)}")
+        if isinstance(base, PV):
+            raise Undecided(f"array store {norm(node)}")
 
     def _rebind(self, target: ast.expr, v):
         if isinstance(target, ast.Name):
